@@ -5,8 +5,8 @@ package main
 
 import (
 	"flag"
-	"go/token"
 	"fmt"
+	"go/token"
 	"os"
 	"sort"
 	"strconv"
@@ -40,11 +40,22 @@ func main() {
 	verif := flag.String("verif", "/verif", "verif dir (evidence, known findings)")
 	dump := flag.String("dump", "", "debug: dump SSA of <pkgkey>:<func> with provenance renderings")
 	layout := flag.String("layout", "", "debug: print symbolic byte layouts / hash input of <pkgkey>:<func>")
+	genKnown := flag.Bool("gen-known", false, "print known_funcs.go for the tree at -repo (reference snapshot of function names)")
 	pats := flag.String("patterns", "", "debug: comma separated package patterns for -dump")
 	flag.Parse()
 
 	start := time.Now()
 	verifDir = *verif
+	if *genKnown {
+		noInlineGlobal = true
+		c, err := LoadRepo(*repo, append(append([]string{}, corePkgs...), "./pkg/conversion"), false)
+		if err != nil {
+			fmt.Println("load error:", err)
+			os.Exit(2)
+		}
+		genKnownFuncs(c)
+		return
+	}
 	if *layout != "" {
 		c, err := LoadRepo(*repo, corePkgs, true)
 		if err != nil {
